@@ -44,11 +44,11 @@ MODULE = "ColaVerif.Properties.C08"
 DRIVER = "DriverC08.lean"
 CORPUS = os.path.join(common.ROOT, "harness", "corpus", "c08.jsonl")
 
-# Genuine defects of cola found by this check and not yet decided (repair in /repo or entry in known_findings.json).
-PROVISIONAL_KNOWN = {}   # decided: `bdiag-zero-multiplicity` is recorded in /verif/known_findings.json (matched through common.known_clauses)
-# (history: `bdiag-nonsquare-block` and `kron-nonsquare-factor` — diag(BlockDiag) / diag(Kronecker) with non-square members
-#  returned wrong values — were found by this check and are repaired in /repo: the rules refuse now; see the corpus and
-#  the regression lemmas C08_regression_block / C08_regression_factor)
+# Recorded findings are read from /verif/known_findings.json through common.known_clauses (C08: `bdiag-zero-multiplicity`,
+# a RESULT-DTYPE clause; there is no value clause).  No finding is provisional.
+# History: diag / trace of a BlockDiag / Kronecker with non-square members returned wrong values; found by this check,
+# repaired in /repo (bbee7eb: the rules refuse with an AssertionError).  The former clause names of that defect are not
+# clauses any more; the corpus lines 1-4 and the theorems C08_regression_block / C08_regression_factor are its regression tests.
 
 KINDS = ["dense", "tri", "sparse", "scalar", "eye", "diag", "tridiag", "perm", "house",
          "prod", "sum", "kron", "kronsum", "bdiag", "T", "H", "slice", "concat", "generic", "ann", "gram", "symslice"]
@@ -260,11 +260,18 @@ def judge_dtype(case, ans, real):
     if real.get("opdtype") not in (None, sdt):
         return "stale-model", f"the operator's .dtype is {real['opdtype']}, the promotion of its leaf dtypes is {sdt}"
     dtcl = [c for c in ans.get("dtclauses", [])]
+    # the recorded clause is attributed by the decidable predicate on THIS expression (Op.ruleZeroMult in the driver,
+    # rule_zero_mult here: two readings of the same predicate, which must agree), and it excuses nothing but the dtype
+    # observation of this call, and only in the form the model predicts (real = code model != promotion of the leaves)
+    py_zero = rule_zero_mult(case["op"])
+    if py_zero != (ZERO_MULT in dtcl) or [c for c in dtcl if c != ZERO_MULT]:
+        return "stale-model", (f"clause attribution: the driver reports the dtype clauses {dtcl}, the input predicate 'a BlockDiag on the "
+                               f"path of the structural rules has a block of multiplicity 0' is {py_zero}")
     if rdt == cdt:
         if cdt == sdt:
             return "ok", ""
-        if dtcl and all(c in KNOWN_JSON for c in dtcl):
-            return "known", dtcl
+        if py_zero and ZERO_MULT in KNOWN_JSON:
+            return "known", [ZERO_MULT]
         return "violation", f"result dtype {rdt} (= code model) differs from the promotion of the leaf dtypes {sdt} and no named clause covers the case"
     if rdt == sdt:
         return "stale-model", f"result dtype: real {rdt} = specification, the code model predicts {cdt}"
@@ -274,74 +281,177 @@ def judge_dtype(case, ans, real):
 
 
 KNOWN_JSON = {}
+ZERO_MULT = "bdiag-zero-multiplicity"
+C01_HYPOTHESES = ("sliced-repeated-index", "scalar-times-annotated")     # Op.clauses: hypotheses `dupSlice = false` / `HermOK` of the value theorems
+HUTCH_NUMEL = 10 ** 11
+REFUSALS = collections.Counter()     # evidence: reason of every refusal on which real, model and the input predicate agree
+
+
+def rule_path_kids(e):
+    """members the rules of diag / trace recurse into (Sum / BlockDiag / Kronecker / KronSum members, declaration wrappers)"""
+    t = e[0]
+    if t in ("sum", "kron", "kronsum"):
+        return list(e[1:])
+    if t == "bdiag":
+        return list(e[1])
+    if t == "ann":
+        return [e[2]]
+    return []
+
+
+def rule_zero_mult(e):
+    """the input predicate of the clause `bdiag-zero-multiplicity` (Lean: Op.ruleZeroMult)"""
+    if e[0] == "bdiag" and any(int(m) == 0 for m in e[2]):
+        return True
+    return any(rule_zero_mult(x) for x in rule_path_kids(e))
+
+
+def hutch_reach(e):
+    """the input predicate under which Auto() leaves the exact algorithm (Lean: Op.hutchReach): the rule recursion hands an
+    operator with numel >= 1e11 to the generic LinearOperator rule"""
+    t = e[0]
+    if t in ("dense", "tri", "eye", "diag", "scalar"):
+        return False
+    if t in ("sum", "kron", "kronsum", "bdiag", "ann"):
+        return any(hutch_reach(x) for x in rule_path_kids(e))
+    r, c_ = gen.shape_of(e)
+    return r * c_ >= HUTCH_NUMEL
+
+
+def predicted_refusal(e, call, k=0):
+    """the exception the rules of cola/linalg/trace/diag_trace.py must raise on this INPUT, read off the source
+    independently of the Lean code model: -> (error class, reason) or None (the call returns).  Evaluation order as in
+    the source: the asserts of a rule come before its member calls, members are visited left to right."""
+    t = e[0]
+    if call == "trace":
+        if t == "ann":
+            return predicted_refusal(e[2], "trace")
+        if t == "kron":                                   # product([trace(M, alg) for M in A.Ms])
+            for x in e[1:]:
+                r = predicted_refusal(x, "trace")
+                if r is not None:
+                    return r
+            return None
+        r_, c_ = gen.shape_of(e)
+        if r_ != c_:                                      # assert A.shape[0] == A.shape[1]
+            return "error:AssertionError", "trace: operand not square"
+        return predicted_refusal(e, "diag", 0)
+    if t == "ann":
+        return predicted_refusal(e[2], "diag", k)
+    if t in ("dense", "tri"):                             # xnp.diag(A.A, diagonal=k): empty for |k| >= n
+        return None
+    if t in ("eye", "diag", "scalar"):                    # xnp.zeros((n - abs(k),)) for k != 0
+        n = gen.shape_of(e)[0]
+        return ("error:ValueError", "Identity/Diagonal/ScalarMul: |k| > n, zeros of negative extent") if (k != 0 and abs(k) > n) else None
+    if t == "sum":                                        # sum(diag(M, k, alg) for M in A.Ms); all members n x n: equal lengths
+        for x in e[1:]:
+            r = predicted_refusal(x, "diag", k)
+            if r is not None:
+                return r
+        return None
+    if t in ("bdiag", "kron", "kronsum"):
+        name = {"bdiag": "BlockDiag", "kron": "Kronecker", "kronsum": "KronSum"}[t]
+        if k != 0:                                        # assert k == 0
+            return "error:AssertionError", f"{name}: k != 0"
+        kids = rule_path_kids(e)
+        if t != "kronsum" and any(gen.shape_of(x)[0] != gen.shape_of(x)[1] for x in kids):
+            return "error:AssertionError", f"{name}: non-square member"
+        for x in kids:
+            r = predicted_refusal(x, "diag", 0)
+            if r is not None:
+                return r
+        if t == "bdiag" and all(int(m) == 0 for m in e[2]):
+            return "error:ValueError", "BlockDiag: no block present, concatenate of nothing"
+        return None
+    # every other class: the generic LinearOperator rules (probing loop); range(0, 0, 0) on an empty operator
+    r_, c_ = gen.shape_of(e)
+    if r_ == 0:
+        return "error:ValueError", "probing loop on an empty operator"
+    return None
 
 
 def classify(case, ans, real, known):
     """values, then (where the values are settled) rule selection and result dtype of the same call"""
     st, det = classify_values(case, ans, real, known)
-    if st in ("ok", "known", "refused-ok", "inexact"):
+    if st in ("ok", "refused-ok", "inexact"):
         rd = judge_rule(case, ans, real)
         if rd is not None:
             return "stale-model", rd
-    if st in ("ok", "known", "inexact") and "ok" in real:
+    if st in ("ok", "inexact") and "ok" in real:
         dst, ddet = judge_dtype(case, ans, real)
         if dst in ("violation", "stale-model"):
             return dst, ddet
         if dst == "known":
-            return "known", (list(det) if st == "known" else []) + list(ddet)
+            # values agree three-way; ONLY the dtype observation of this call is covered by the recorded clause
+            return "known", list(ddet)
     return st, det
 
 
 def classify_values(case, ans, real, known):
     """-> (status, detail); status in
-    ok | refused-ok | unmodelled-ok | known | violation | stale-model | skipped | inexact | driver-error"""
+    ok | refused-ok | unmodelled-ok | violation | stale-model | skipped | inexact | driver-error
+    (there is no `known` status for values: C08 has no recorded value clause; a value mismatch is never excused)"""
     if "error" in ans:
         return "driver-error", ans["error"]
     if not ans.get("wf", True) or not ans.get("square", True):
         return "skipped", "not well-formed / not square"
-    foreign = [c for c in ans.get("clauses", []) if c not in PROVISIONAL_KNOWN and c not in KNOWN_JSON]
+    foreign = [c for c in ans.get("clauses", [])]
     if foreign:
-        return "skipped", "hypothesis of C01 violated: " + ",".join(foreign)
-    if bound_of(case, ans) >= treecheck.exact_bound(case):
-        return "inexact", ""
+        # Op.clauses names the hypotheses `dupSlice = false` / `HermOK` of the value theorems (recorded findings of C01 / C05):
+        # the theorems claim nothing here.  The call is still observed: where real, model and specification agree (values or
+        # exception class) it counts as compared, and its rule selection / dtype are judged; only a disagreement on the
+        # VALUES is left to C01 / C05 (`skipped`, with the violated hypothesis as the reason)
+        st, det = classify_values(case, {k: v for k, v in ans.items() if k != "clauses"}, real, known)
+        if st in ("ok", "refused-ok", "inexact", "driver-error"):
+            return st, det
+        return "skipped", "hypothesis of the value theorems violated: " + ",".join(foreign) + " (real / model / specification differ: " + st + ")"
     code, spec = ans["code"], ans["spec"]
-    clauses = [c for c in ans.get("clauses", []) if c in PROVISIONAL_KNOWN or c in KNOWN_JSON]
     real_is_err = "err" in real
-    real_eq_spec = (not real_is_err) and real["ok"] == spec
+    exact = bound_of(case, ans) < treecheck.exact_bound(case)
+    want = predicted_refusal(case["op"], case["call"], int(case.get("k", 0)))
     if "err" in code:
         if code["err"].startswith("unmodelled"):
-            # the model does not say what the code does here (non-square operand of the probing loop);
-            # only the property itself is judged: same values as the true diagonal, or a refusal
-            if real_is_err or real_eq_spec:
-                return "unmodelled-ok", code["err"]
-            if clauses:
-                return "known", clauses
-            return "violation", f"real returns values different from the true {case['call']} (model: {code['err']})"
+            # the model does not say what the code does.  By C08_refusals_are_exceptions / C08_trace_refusals_are_exceptions
+            # this happens on a well-formed square tree only under the input predicate hutch_reach (some operator handed to
+            # the generic rule has numel >= 1e11) with alg != Exact(): checked here on the input; nothing else is excused
+            alg_exact = case.get("alg", "omitted") == "exact"
+            if not (code["err"] == "unmodelled:hutch" and hutch_reach(case["op"]) and bool(ans.get("hutch")) and not alg_exact):
+                return "stale-model", (f"the model answers {code['err']} although the input predicate for it is false "
+                                       f"(numel >= 1e11 at a generic node: {hutch_reach(case['op'])}, driver: {ans.get('hutch')}, alg: {case.get('alg')})")
+            if real_is_err:
+                return "violation", f"Auto() on an operator with numel >= 1e11 raised {real['err']}: {real.get('msg', '')}"
+            return "unmodelled-ok", code["err"]            # a stochastic estimate: outside C08 (never generated)
+        # the model predicts an exception: its class is compared with the real one whatever the magnitudes are
         if real_is_err:
-            if real["err"] == code["err"]:
-                return "refused-ok", code["err"]
-            return "stale-model", f"both refuse, but real raises {real['err']} and the model {code['err']}"
-        if real_eq_spec:
+            if real["err"] != code["err"]:
+                return "stale-model", f"both refuse, but real raises {real['err']} ({real.get('msg', '')}) and the model {code['err']}"
+            if want is None or want[0] != code["err"]:
+                return "stale-model", (f"real and model refuse with {code['err']}, but the rules read off the source predict "
+                                       f"{want[0] if want else 'a returned value'} for this input")
+            REFUSALS[want[0] + " | " + want[1]] += 1
+            return "refused-ok", code["err"]
+        if not exact:
+            return "inexact", ""
+        if real["ok"] == spec:
             return "stale-model", f"real returns the true values, the model refuses with {code['err']}"
-        if clauses:
-            return "known", clauses
         return "violation", f"real returns values different from the true {case['call']} (the model refuses with {code['err']})"
     # the model returns values
-    if not real_is_err and real["ok"] == code["ok"]:
-        if code["ok"] == spec:
-            return "ok", ""
-        if clauses:
-            return "known", clauses
-        return "violation", "real = code model, both differ from the true values and no named clause covers the case"
     if real_is_err:
         if case["call"] == "diag" and ans.get("drule", "").endswith("LinearOperator"):
             # only a structural rule may refuse; the exact / automatic algorithm on the generic path must return the diagonal
+            # (model: C08_generic_total)
             return "violation", f"the probing algorithm refuses a square operator ({real['err']}: {real.get('msg', '')})"
         return "stale-model", f"real refuses ({real['err']}: {real.get('msg', '')}), the model returns values"
-    if real_eq_spec:
+    if want is not None:
+        return "stale-model", f"real and model return values, but the rules read off the source predict {want[0]} ({want[1]}) for this input"
+    if not exact:
+        return "inexact", ""
+    if real["ok"] == code["ok"]:
+        if code["ok"] == spec:
+            return "ok", ""
+        return "violation", "real = code model, both differ from the true values (C08 has no recorded value clause)"
+    if real["ok"] == spec:
         return "stale-model", "real returns the true values, the model predicts others"
-    if clauses:
-        return "stale-model", "real, model and specification all differ on a case violating " + ",".join(clauses)
     return "violation", f"real returns values different from the true {case['call']} (and from the model)"
 
 
@@ -390,11 +500,11 @@ class Engine:
         self.reported = 0
         self.known = dict(common.known_clauses(ctx.prop))
         self.known_what = {k: v["what"] for k, v in self.known.items()}
-        for k, v in PROVISIONAL_KNOWN.items():
-            self.known_what.setdefault(k, v)
         KNOWN_JSON.clear()
         KNOWN_JSON.update(self.known)
         self.dtype_hist = collections.Counter()
+        self.skip_reasons = collections.Counter()
+        REFUSALS.clear()
         self.sel_mismatch = 0
         self.block_cov = {}
         self.live_rules = {}
@@ -482,7 +592,21 @@ class Engine:
         self.stats[st] += 1
         self.stats["evaluations"] += 1
         self.stats["stream-" + stream] += 1
-        if st in ("ok", "refused-ok", "unmodelled-ok", "known"):
+        if st == "skipped":
+            self.skip_reasons[str(det)] += 1
+        if c.get("witness") and st != "driver-error":
+            # a corpus line carrying the tree and the value of a Lean witness theorem (C08_rules_witness, ...): the real code,
+            # the executable model and the value stated in the theorem must be the same
+            w = c["witness"]["value"]
+            wv = [int(w), 0] if c["call"] == "trace" else [[int(x), 0] for x in w]
+            if st != "ok" or real.get("ok") != wv or a.get("code", {}).get("ok") != wv:
+                self.stats["witness-mismatch"] += 1
+                common.violation(ctx, {"case": c, "real": real, "model_code": a.get("code"), "status": st,
+                                       "broken": f"the tree of the Lean theorem {c['witness']['theorem']} does not evaluate to the value stated there"},
+                                 no_input=(st != "violation"))
+            else:
+                self.stats["witness-confirmed"] += 1
+        if st in ("ok", "refused-ok", "known"):
             self.kind_hist[c["op"][0]] += 1
             self.size_hist[a.get("rows")] += 1
             self.alg_hist[c.get("alg", "omitted")] += 1
@@ -983,8 +1107,8 @@ def stream_c(ctx, eng, rng, count):
             eng.stats["driver-error"] += 1
             ctx.notes.append(f"driver error (stream C): {a['error']}")
             continue
-        if not a.get("wf") or not a.get("square") or [x for x in a.get("clauses", []) if x not in PROVISIONAL_KNOWN and x not in KNOWN_JSON]:
-            eng.stats["skipped"] += 1
+        if not a.get("wf") or not a.get("square") or a.get("clauses"):
+            eng.stats["skipped"] += 1          # (model-only stream: a generated tree outside the hypotheses of C08_exact)
             continue
         if a["code"].get("ok") == a["spec"]:
             eng.stats["ok"] += 1
@@ -1235,7 +1359,8 @@ def run(ctx):
         "distinct_nontrivial": len(eng.distinct),
         "rule": "distinct = canonical JSON of (expression, call, k, alg) [stream A, B-lean], (form, n, k, dtype, alg) [stream B-numpy], "
                 "(expression, k, bs) [stream C]; non-trivial = not a bare Identity/ScalarMul/Diagonal leaf and the comparison was "
-                "carried out exactly (status ok / refused-ok / known)",
+                "carried out exactly (status ok = values three-way equal; refused-ok = exception class three-way equal; known = values "
+                "three-way equal and the dtype observation covered by the recorded clause)",
         "outcomes": dict(eng.stats),
         "kinds_top": dict(eng.kind_hist),
         "sizes": {str(k): v for k, v in sorted(eng.size_hist.items(), key=lambda t: (t[0] is None, t[0]))},
@@ -1247,21 +1372,50 @@ def run(ctx):
         "live_rules": eng.live_rules,
         "block_constant_stream": eng.block_cov,
         "samples": eng.samples,
-        "provisional_known": PROVISIONAL_KNOWN,
+        "provisional_known": {},
+        "refusals": {
+            "meaning": "refused-ok = THREE-WAY agreement on the exception CLASS: the real call raises X, the Lean code model answers error:X, and "
+                       "predicted_refusal (the rules of cola/linalg/trace/diag_trace.py read off the source, a decidable predicate on the input) "
+                       "gives X with the reason below; any disagreement among the three is a VIOLATION (stale model)",
+            "by_class_and_reason": dict(REFUSALS),
+            "total": sum(REFUSALS.values()),
+        },
+        "not_compared": {
+            "skipped (tree outside wf / square / the C01-C05 hypotheses dupSlice=false, HermOK; by reason)": dict(eng.skip_reasons),
+            "inexact (both sides return values whose magnitude bound leaves the exactly representable range; exception classes, rule "
+            "selection and dtype are still compared)": eng.stats["inexact"],
+            "unmodelled-ok (model answers unmodelled:hutch AND the input predicate numel >= 1e11 at a generic node holds AND alg != Exact)": eng.stats["unmodelled-ok"],
+        },
+        "recorded_clause_attribution": "bdiag-zero-multiplicity is attributed per call by the input predicate (Op.ruleZeroMult in the driver = "
+                                       "rule_zero_mult in the harness, which must agree) and excuses only the dtype observation real = code model != "
+                                       "promotion of the leaf dtypes; values, exception classes and rule selection of the same call are never excused",
+        "lean_witness_trees_confirmed_on_real_code": eng.stats["witness-confirmed"],
         "notes": ctx.notes[:8],
         "cumulative_wall_s_after_stage": timings,
-        "compare": "exact (Gaussian-integer payloads; cases whose magnitude bound leaves the exactly representable range are 'inexact' and not compared)",
+        "compare": "exact (Gaussian-integer payloads; cases in which both sides return values whose magnitude bound leaves the exactly representable "
+                   "range are 'inexact': values not compared)",
     }
     common.write_evidence(ctx, gate, cov, assumptions=[
         "the theorems are about exact ring arithmetic; floating-point results are compared exactly only where every intermediate is an exactly representable integer",
-        "Hutchinson estimation (Auto with numel >= 1e11, alg=Hutch) is outside C08 and outside the model ('unmodelled:hutch')",
+        "hypotheses of the value theorems (C08_exact, C08_rules, C08_trace, ...), each still a parameter: `hwf : A.wf = true` (constructor "
+        "preconditions), `hnd : A.dupSlice = false` (C01's recorded clause sliced-repeated-index), `hh : A.HermOK` (what C05 proves; fails on C05's "
+        "recorded scalar-times-annotated trees), `hsq : A.rows = A.cols` (square), `hbs : 0 < bs0`; witnessed by C08_hypotheses_witness, "
+        "C08_rules_witness, C08_trace_witness, C08_probing_witness (concrete nested trees, also run on the real code: corpus lines with `witness`)",
+        "hypothesis of the dtype theorems (C08_dtype_diag_partial, C08_dtype_trace_partial, C08_dtype_is_operator_dtype): `hz : A.ruleZeroMult = false` "
+        "= the recorded clause bdiag-zero-multiplicity (C08_dtype_clause_needed shows it cannot be dropped)",
+        "hypothesis of C08_refusals_are_exceptions / C08_trace_refusals_are_exceptions / C08_rule_agrees_with_probing_strict: `alg = Exact() or "
+        "A.hutchReach = false` (no operator with numel >= 1e11 reaches the generic rule); C08_escape_witness shows it cannot be dropped. Beyond it "
+        "the model answers 'unmodelled:hutch' (Auto() returns a Hutchinson estimate: outside C08); never generated, so 'unmodelled-ok' is 0",
         "the block size 100 of exact_diag is a universally quantified parameter bs0 > 0 of the theorems; the real loop is exercised at the true sizes "
         "99..250 against numpy and against the Lean model with bs0 = 100",
-        "result dtype: the code model of `A @ chunk` is C01's Op.mmDtype (promote_types(A.dtype, X.dtype)); NEP 50 (a weak Python 0 / 0. adopts the "
-        "array's dtype) and numpy's promotion of the four floating dtypes are modelled, and compared with numpy.result_type on every case",
+        "the code model of `A @ chunk` inside the probing loop is C01's Op.mm (values; Op.mm_eq needs wf, dupSlice=false, HermOK) and C01's Op.mmDtype "
+        "(dtype: promote_types(A.dtype, X.dtype)); both are taken from C01, not re-proved here",
+        "NumPy promotion of the four floating dtypes and NEP 50 (a weak Python 0 / 0. adopts the array's dtype) are modelled (binDt, pySumDt, "
+        "reduceMulDt, concatDt) and compared with numpy.result_type and the real result dtype on every case, not derived from NumPy's source",
         "rule selection: the model's rule tables are compared with the live dispatch table on every run (stream D); that the Lean function "
         "diagRuleSig equals plum's resolution is carried by that comparison on every instance and every real call, not by a theorem about plum",
-        "diag of a NON-square operand through the probing loop is not modelled ('unmodelled:nonsquare-exact'); since the BlockDiag / Kronecker rules refuse non-square members it is unreachable from a square tree",
+        "exception classes: the model's error:<Class> is compared with the class of the exception the real call raises and with the rules read off the "
+        "source (predicted_refusal) on every refusing call; the exception MESSAGE is not compared",
     ])
     print(json.dumps({"outcomes": cov["outcomes"], "distinct_nontrivial": cov["distinct_nontrivial"],
                       "gate": (gate or {}).get("obligations")}))
